@@ -1,6 +1,10 @@
 package parser
 
-import comb "github.com/moorara/algo/parser/combinator"
+import (
+	"math"
+
+	comb "github.com/moorara/algo/parser/combinator"
+)
 
 var (
 	escapedChars = []rune{'\\', '|', '.', '?', '*', '+', '(', ')', '[', ']', '{', '}', '$'}
@@ -66,7 +70,12 @@ func toNum(r comb.Result) (comb.Result, bool) {
 
 	var num int
 	for _, r := range l {
-		num = num*10 + r.Val.(int)
+		d := r.Val.(int)
+		if num > (math.MaxInt-d)/10 {
+			// The number does not fit into an int. It is not accepted rather than wrapped around.
+			return comb.Result{}, false
+		}
+		num = num*10 + d
 	}
 
 	return comb.Result{
